@@ -166,6 +166,13 @@ func genCase(r *core.Rand) *kase {
 			k.omit[i] = r.Chance(1, 2)
 		}
 	}
+	// ---- proxy loop: retried attempts, request header ops
+	if r.Chance(1, 3) {
+		k.fails = 1 + r.Intn(2)
+	}
+	if r.Chance(1, 2) {
+		k.hops = 1 + r.Intn(2)
+	}
 	// ---- connection
 	k.remote = remoteAddr(r)
 	if sp, err := parsePrefixes(k.srvT); err == nil && len(sp) > 0 && r.Chance(2, 5) {
@@ -246,10 +253,11 @@ func (p *prop) Generate(rng *core.Rand, tier string, emit func(string)) {
 	}
 	// a malformed stream: both sides must answer bad-op
 	for _, l := range []string{
-		"", "req", "nope 1 2 3", "req nil nil 0 . 000 - 0 - . .",
-		"req nil nil 3 . 000 - 0 - . . .", "req nil nil 0 . 00 - 0 - . .", "req nil nil 0 . 000 zz 0 - . .",
-		"req nil nil 0 . 000 - 2 - . .", "req 10.0.0.0/8 nil 0 nil 000 - 0 - . .", "req x,y nil 0 . 000 - 0 - . .",
-		"req nil nil 0 . 000 - 0 - 41 .", "req nil nil 0 . 000 - 0 - 41:42:43 .",
+		"", "req", "nope 1 2 3", "req nil nil 0 . 000 - 0 - . . 0 0",
+		"req nil nil 0 . 000 - 0 - . .", "req nil nil 3 . 000 - 0 - . . 0 0", "req nil nil 0 . 00 - 0 - . . 0 0",
+		"req nil nil 0 . 000 zz 0 - . . 0 0", "req nil nil 0 . 000 - 2 - . . 0 0", "req 10.0.0.0/8 nil 0 nil 000 - 0 - . . 0 0",
+		"req x,y nil 0 . 000 - 0 - . . 0 0", "req nil nil 0 . 000 - 0 - 41 . 0 0", "req nil nil 0 . 000 - 0 - 41:42:43 . 0 0",
+		"req nil nil 0 . 000 - 0 - . . 3 0", "req nil nil 0 . 000 - 0 - . . 1 3", "req nil nil 0 . 000 - 0 - . . 2 2",
 	} {
 		emit(l)
 	}
